@@ -48,21 +48,49 @@ BASE = {
     'arcsec': _mk('arcsec', Sc(ARCSEC_RAD), rad=1),
     'rad': _mk('rad', 1, rad=1),
     'dimensionless_unscaled': _mk('', 1),
+    'K': _mk('K', 1, K=1),
+    'AA': _mk('AA', F(1, 10 ** 10), m=1),
+    'nm': _mk('nm', F(1, 10 ** 9), m=1),
 }
+
+
+def _exact(x):
+    """Concrete scales are kept as exact rationals (never floats)."""
+    if isinstance(x, bool) or isinstance(x, Sc):
+        return x
+    if isinstance(x, int):
+        return F(x)
+    if isinstance(x, float):
+        return F(repr(x))
+    return x
+
+
+def _sdiv(a, b):
+    a, b = _exact(a), _exact(b)
+    if isinstance(a, F) and isinstance(b, F):
+        return a / b
+    return arith('/', a, b)
+
+
+def _smul(a, b):
+    a, b = _exact(a), _exact(b)
+    if isinstance(a, F) and isinstance(b, F):
+        return a * b
+    return arith('*', a, b)
 
 
 def unit_mul(a, b):
     dims = dict(a.dims)
     for k, v in b.dims.items():
         dims[k] = dims.get(k, 0) + v
-    return Unit(_name('*', a, b), arith('*', a.scale, b.scale), dims)
+    return Unit(_name('*', a, b), _smul(a.scale, b.scale), dims)
 
 
 def unit_div(a, b):
     dims = dict(a.dims)
     for k, v in b.dims.items():
         dims[k] = dims.get(k, 0) - v
-    return Unit(_name('/', a, b), arith('/', a.scale, b.scale), dims)
+    return Unit(_name('/', a, b), _sdiv(a.scale, b.scale), dims)
 
 
 def unit_pow(a, n):
@@ -72,11 +100,11 @@ def unit_pow(a, n):
     if n >= 0:
         sc = 1
         for _ in range(n):
-            sc = arith('*', sc, a.scale)
+            sc = _smul(sc, a.scale)
     else:
         sc = 1
         for _ in range(-n):
-            sc = arith('/', sc, a.scale)
+            sc = _sdiv(sc, a.scale)
     return Unit("(%s)^%d" % (a.name, n), sc, dims)
 
 
